@@ -30,6 +30,7 @@ func engineFuzzy(ctx *Ctx) {
 	nQ := ctx.Pick(50, 70)
 	for d := 0; d < nDB; d++ {
 		var db *database.Database
+		var markers []string
 		dbName := fmt.Sprintf("gen-%d-%d", ctx.Shard, d)
 		if d == 0 && ctx.Shard%8 == 6 {
 			db = ctx.Shipped()
@@ -40,7 +41,16 @@ func engineFuzzy(ctx *Ctx) {
 			if sp.N > 200 {
 				sp.N = 200
 			}
+			g := ctx.G(d)
+			if g%3 == 1 {
+				sp.Platforms = 1 // entries with platform tags, searched under platform requests (see c07Phase)
+			}
+			if g%10 == 7 { // sizes of real deployments, just above powers of two in most cases
+				sp.N = []int{512, 1024, 2048, 2048, 4096}[r.Intn(5)] + 1 + r.Intn(7)
+				ctx.R.Path("large-databases", 1)
+			}
 			cmds0 := vlib.GenCommands(r, sp)
+			markers = c07PlantMarkers(r, cmds0)
 			if !ctx.R.Guard("C07", "LoadDatabase", dbName, func() { db = vlib.MustLoad(cmds0) }) {
 				continue
 			}
@@ -49,8 +59,8 @@ func engineFuzzy(ctx *Ctx) {
 		if dbName == "shipped" {
 			nq = ctx.Pick(30, 200)
 		}
-		c07Phase(ctx, r, db, dbName, "load", nq)
-		if dbName == "shipped" || len(db.Commands) == 0 {
+		c07Phase(ctx, r, db, dbName, "load", nq, markers)
+		if dbName == "shipped" || len(db.Commands) == 0 || len(db.Commands) > 400 {
 			continue
 		}
 		// histories: the fallback must match against the commands being searched *now*
@@ -63,18 +73,38 @@ func engineFuzzy(ctx *Ctx) {
 		}) {
 			continue
 		}
-		c07Phase(ctx, r, db, dbName, "same-size-replacement", nq/3+1)
+		c07Phase(ctx, r, db, dbName, "same-size-replacement", nq/3+1, nil)
 		if !ctx.R.Guard("C07", "append", dbName, func() {
 			db.Commands = append(db.Commands, vlib.MustLoad(vlib.GenCommands(r, vlib.DBSpec{N: 1 + r.Intn(4)})).Commands...)
 		}) {
 			continue
 		}
-		c07Phase(ctx, r, db, dbName, "append", nq/3+1)
+		c07Phase(ctx, r, db, dbName, "append", nq/3+1, nil)
 	}
 }
 
 // c07Phase runs the fuzzy-on / fuzzy-off oracles against the database as it is now.
-func c07Phase(ctx *Ctx, r *rand.Rand, db *database.Database, dbName, phase string, nq int) {
+// c07PlantMarkers gives the first, the middle and the last three entries a word of rare letters that occurs nowhere else
+// (position-dependent losses - a tail that is never matched - show only on queries that single out such an entry).
+func c07PlantMarkers(r *rand.Rand, cmds []vlib.Cmd) []string {
+	n := len(cmds)
+	if n < 6 {
+		return nil
+	}
+	var out []string
+	for _, i := range []int{0, n / 2, n - 3, n - 2, n - 1} {
+		b := make([]byte, 9)
+		for k := range b {
+			b[k] = "zqxjkvw"[r.Intn(7)]
+		}
+		m := string(b)
+		cmds[i].Description += " " + m
+		out = append(out, m)
+	}
+	return out
+}
+
+func c07Phase(ctx *Ctx, r *rand.Rand, db *database.Database, dbName, phase string, nq int, markers []string) {
 	cmds := db.Commands
 	N := len(cmds)
 	if N == 0 {
@@ -115,11 +145,27 @@ func c07Phase(ctx *Ctx, r *rand.Rand, db *database.Database, dbName, phase strin
 				q = strings.ToUpper(q)
 			}
 		}
+		marker := false
+		if len(markers) > 0 && qi < 2*len(markers) { // a misspelt marker: only one entry holds these letters in order
+			m := markers[qi%len(markers)]
+			k := 1 + r.Intn(len(m)-2)
+			q = m[:k] + m[k+1:]
+			marker = true
+			ctx.R.Path("marker-queries", 1)
+		}
 		if q == "" {
 			continue
 		}
 		thr := []int{0, 0, 0, -30, -5, 1, 40}[r.Intn(7)]
+		if marker {
+			thr = 0
+		}
 		o := database.SearchOptions{Limit: []int{3, 5, 10, N + 1}[r.Intn(4)], UseNLP: r.Intn(2) == 0, AllPlatforms: true, FuzzyThreshold: thr}
+		if r.Intn(2) == 0 { // platform requests as the CLI hands them over (aliases, padding, blanks)
+			o.AllPlatforms = false
+			o.Platforms = c04PlatformSets[r.Intn(len(c04PlatformSets))]
+			o.NoCrossPlatform = r.Intn(4) == 0
+		}
 		oOn := o
 		oOn.UseFuzzy = true
 		cs := map[string]interface{}{"db": dbName, "n": N, "query": q, "opts": vlib.OptsJ(oOn), "after": phase}
@@ -204,6 +250,11 @@ func c07Phase(ctx *Ctx, r *rand.Rand, db *database.Database, dbName, phase strin
 			if thr == 0 && len(on) == 0 {
 				for i := range cmds {
 					if vlib.SubseqFold(q, c07Text(&cmds[i])) {
+						if !c07Eligible(db, cmds, i, o) {
+							ctx.R.Path("in-order-match-not-shown-eligible", 1)
+							continue
+						}
+						ctx.R.Path("eligible-checked", 1)
 						ctx.R.Violate(vlib.Violation{Property: "C07", Clause: "match-left-without-result", Path: "SearchUniversal/fuzzy",
 							Detail:  fmt.Sprintf("entry %d %s contains the query's characters in order, yet the answer is empty", i, vlib.Q(vlib.Trunc(c07Text(&cmds[i]), 100))),
 							Witness: cs})
@@ -213,4 +264,24 @@ func c07Phase(ctx *Ctx, r *rand.Rand, db *database.Database, dbName, phase strin
 			}
 		})
 	}
+}
+
+// c07Eligible: is entry i certainly eligible under o? Without a platform restriction, or without declared platforms, it is.
+// Otherwise eligibility is witnessed by the engine's own lexical path: a search for one of the entry's words, same filters,
+// no typo tolerance, returns it (both filters apply equally to lexical and typo-fallback answers).
+func c07Eligible(db *database.Database, cmds []vlib.Cmd, i int, o database.SearchOptions) bool {
+	if o.AllPlatforms || len(cmds[i].Platform) == 0 {
+		return true
+	}
+	lex := o
+	lex.UseFuzzy, lex.Limit, lex.UseNLP, lex.FuzzyThreshold = false, len(cmds)+1, false, 0
+	toks := vlib.Tokenize(c07Text(&cmds[i]))
+	for k := 0; k < len(toks) && k < 4; k++ {
+		for _, x := range db.SearchUniversal(toks[k], lex) {
+			if vlib.IndexOf(cmds, x.Command) == i {
+				return true
+			}
+		}
+	}
+	return false
 }
